@@ -137,6 +137,9 @@ func runC15(r *core.Run) {
 		q.LaunchVmsas = []uint32{1, 2, 8, 224, 3, 6, 12, 500}[r.Intn(8, "vmsas")] // incl. counts outside the shipped machine-shape list
 	}
 	q.Genoa = r.Chance(30, "genoa?")
+	if r.Chance(20, "svsm?") {
+		q.Svsm = bytes.Repeat([]byte{byte(0x50 + r.Intn(16, "svsm-byte"))}, 48)
+	}
 	if img.TDX {
 		q.TDX = true
 		q.SNP = r.Bool("tdx-with-snp")
@@ -158,7 +161,7 @@ func runC15(r *core.Run) {
 	// has Context.VCSs seeded with two back ends (library path only)
 	vcs2 := seams.NewSimVCS(r, "/release2")
 	if !q.ViaCLI {
-		switch r.Intn(4, "context-shape") {
+		switch r.Intn(5, "context-shape") {
 		case 1:
 			real := q
 			real.DryRun, real.MeasurementOnly, real.SnapshotDir, real.Candidate, real.Overwrite = false, false, "", "c15-earlier", true
@@ -170,6 +173,22 @@ func runC15(r *core.Run) {
 			}
 			q.Reuse = ec
 			r.Probe("reused-context")
+		case 4:
+			// the long-lived Context has just been through a real run of the same image whose
+			// submission FAILED (the back end refused the commit): this run is still what it says
+			real := q
+			real.DryRun, real.MeasurementOnly, real.SnapshotDir, real.Candidate, real.Overwrite, real.Retries = false, false, "", "c15-failed", true, 0
+			ec := BuildContext(vcs, real)
+			real.Reuse = ec
+			vcs.Decide = func(site string, ws int) seams.Decision { return seams.Decision{Fail: site == "TryCommit"} }
+			_, ferr := Endorse(r, a, vcs, real, scratch)
+			vcs.Decide = nil
+			if ferr == nil {
+				r.HarnessErr = "the earlier real run was meant to fail at its commit"
+				return
+			}
+			q.Reuse = ec
+			r.Probe("reused-context-after-failed-submission")
 		case 2:
 			q.SeedVCSs = []endorse.VersionControl{vcs, vcs2}
 			r.Probe("seeded-vcss")
